@@ -156,6 +156,41 @@ def job(cfg):
     pairs = [("plain", "ad"), ("plain", "ad_norot"), ("ad_nosr", "ad_nosr_norot")]
     if cfg["n_sr"] == 1:
         pairs.append(("plain", "ad_nosr"))
+    # ... and from a NON-initial state: after one no-reconfiguration block started from uneven weights and the
+    # driver's glue (the global comb permutes / duplicates walkers and leaves the cached overlaps as the driver does)
+    if not cfg.get("dup"):
+        B = samplers.build(sysd, wt, NW, dt=dt, n_batch=1)
+        pdu = samplers.copy_pd(samplers.fresh_prop_data(B, vrng.key(0)))
+        pdu["weights"] = jnp.asarray([0.3, 1.0, 2.2, 0.5])
+        eU, pdoU = samplers.call_entry(B, samp, "ad_nosr", pdu)
+        wa_before = np.asarray(pdoU["walkers"] if wt == "restricted" else pdoU["walkers"][0])
+        pdG = samplers.library_glue(B, pdoU, float(eU))
+        wa_after = np.asarray(pdG["walkers"] if wt == "restricted" else pdG["walkers"][0])
+        res.guard("non_initial_state_glue_moved_walkers", int(np.abs(wa_after - wa_before).max() > 1e-6))
+        EG = {}
+        sub = list(range(0, S, max(1, S // 9)))
+        for entry in ENTRIES[:-1]:
+            vals = []
+            for s in sub:
+                pd = samplers.copy_pd(pdG)
+                pd["key"] = vrng.key(s)
+                try:
+                    e, _ = samplers.call_entry(B, samp, entry, pd)
+                except Exception:
+                    vals = None
+                    break
+                vals.append(float(e))
+                res.add(states=1, transitions=1, evaluations=1, traces=1)
+            if vals is not None:
+                EG[entry] = np.array(vals)
+        for a, b in pairs:
+            if a in EG and b in EG:
+                d = np.abs(EG[a] - EG[b])
+                k = int(np.argmax(d))
+                res.guard("non_initial_state_pairs", 1)
+                if not d[k] <= 1e-9:
+                    res.violation("%s-vs-%s/%s/energy-differs-from-non-initial-state" % (a, b, wt),
+                                  dict(cfg, entry=a, other=b, stream=sub[k], what="pair-noninitial"), dict(a=EG[a][k], b=EG[b][k]))
     nbs = sorted(set(nb_ for (_, nb_) in energies))
     for a, b in pairs:
         for nb_ in nbs:
@@ -314,7 +349,7 @@ def run(ctx):
                     if a.shape != b.shape or not np.allclose(a, b, rtol=0, atol=2e-6):
                         ctx.violation("driver/%s/ad-mode-changes-energy" % g[0], dict(what="driver-pair", group=list(g), a=lst[0][0], b=ad, run_seed=int(seed)),
                                       dict(a=a, b=b))
-    ctx.require_guard("cells_callable", "estimator_recomputed", "capped_samples", "streams_with_uneven_weights",
+    ctx.require_guard("non_initial_state_pairs", "non_initial_state_glue_moved_walkers", "cells_callable", "estimator_recomputed", "capped_samples", "streams_with_uneven_weights",
                       "cross_process_digests_compared", "driver_cells_callable", "driver_pairs_compared")
 
 
